@@ -17,7 +17,7 @@ RULE = ("cases = (direction, frame length, frame bytes, device id, virtual wall-
         "encode: msmart's packet must parse under the independent reference (marker, LE length == size, 40-byte header, "
         "id at 20..27 LE, PKCS7/AES-128-ECB under md5(SIGN_KEY), keyed MD5) to the identical frame and id; "
         "decode: a reference-built packet with arbitrary header filler must decode to the identical frame; "
-        "wire: the same through LAN.send on a simulated V2 connection. distinct = distinct (direction,len,id,instant,frame hash); "
+        "wire: the same through LAN.send on a simulated V2 connection, including retransmissions after the device dropped the first one or two transmissions. distinct = distinct (direction,len,id,instant,frame hash); "
         "every case is non-trivial (a full encode/parse or build/decode)")
 ASSUMPTIONS = ["reference V2 implementation in mv/ref/v2.py is a correct reading of the packet overview",
                "AES block primitive = pycryptodome raw ECB, cross-checked against a pure-Python AES and openssl at setup",
@@ -68,7 +68,7 @@ def generate(ctx, rng):
         nresp = rng.choice([1, 1, 2, 3])
         yield ("wire", j), {"kind": "wire", "frame": rng.randbytes(L), "id": rng.choice(BOUNDARY_IDS + [rng.getrandbits(64)]),
                             "responses": [rng.randbytes(rng.randint(0, 255)) for _ in range(nresp)],
-                            "epoch": _rand_epoch(rng)}
+                            "epoch": _rand_epoch(rng), "drop_first": [0, 0, 0, 1, 2][j % 5]}
 
 
 def _epoch(ep):
@@ -124,6 +124,8 @@ def _wire(ctx, case, frame, did):
 
     def on_exchange(conn, req_frame, packets, meta):
         seen.append((req_frame, meta["v2"]["device_id"]))
+        if len(seen) <= case.get("drop_first", 0):
+            return []          # this transmission is lost: the client must retransmit the same frame
         return [(0, v2.build(r, did, msg_id=bytes([i, 0, 0, 0]))) for i, r in enumerate(responses)]
 
     dev.on_exchange = on_exchange
@@ -143,9 +145,14 @@ def _wire(ctx, case, frame, did):
         ctx.violation("wire-request-not-accepted", "device could not parse what LAN.send wrote", case,
                       {"device_events": [ev[:5] for ev in dev.events[:6]]})
         return
-    if seen[0][0] != frame or seen[0][1] != did:
-        ctx.violation("wire-request-mismatch", "device decoded a different frame/id than was sent", case,
-                      {"seen": seen[0]})
+    for i, sn in enumerate(seen):
+        if sn[0] != frame or sn[1] != did:
+            ctx.violation("wire-request-mismatch" if i == 0 else "wire-retransmission-mismatch",
+                          f"transmission {i} decodes to a different frame/id than was sent ({len(sn[0])} bytes)", case, {"seen": sn})
+            break
+    if len(seen) != case.get("drop_first", 0) + 1:
+        ctx.violation("wire-transmission-count", f"{len(seen)} well-formed transmissions seen, expected {case.get('drop_first', 0) + 1}", case,
+                      {"device_events": [ev[:5] for ev in dev.events if ev[1] == "pkt"][:6]})
     if [bytes(g) for g in got] != responses:
         ctx.violation("wire-response-mismatch", "frames returned by LAN.send differ from the frames the device sent", case,
                       {"got": [bytes(g) for g in got]})
